@@ -142,6 +142,7 @@ type Explorer struct {
 	uf               map[int]int
 	termVars         map[int][]*smt.Term
 	NoSlicing        bool
+	decimals         []decRecord
 	curFn            *ssa.Function
 	AllowTagsInFresh bool
 	taken            []int
@@ -205,6 +206,7 @@ func (e *Explorer) startPath(prefix []int) {
 	e.secrets = nil
 	e.sched = nil
 	e.freshCat = nil
+	e.decimals = nil
 	e.AllowTagsInFresh = false
 	e.freshSizes = map[string][]int{}
 	e.inSizes = map[string]int{}
